@@ -501,6 +501,13 @@ def g_index(repo):
     eval_types(g)
     g.fn('U-idx', RULES + 'eval_context.rs', 'retrieve_index', spec='retrieve_index.spec', props=['C01', 'C08'])
     g.fn('U-arity', RULES + 'eval_context.rs', 'get_expected_number_of_args', impl=r'impl FunctionName', spec='arity.spec', wrap_impl='impl FunctionName', props=['C08', 'C18'])
+    # R16 fragment (C08 / C01): the statement of query_retrieval_with_converter that turns the literal index following a
+    # variable key (`%keys[n]`) into a position; no precondition: it must not overflow for ANY i32 and is |n|
+    g.fragment('U-idx3', RULES + 'eval_context.rs', 'query_retrieval_with_converter', None, r'let\s+check\s*=\s*[^;]*;', 0,
+               ('index: &i32', 'usize'), 'check',
+               '    ensures\n        res as int == (if *index >= 0 { *index as int } else { -(*index as int) }),\n',
+               'the statement of query_retrieval_with_converter that computes the position for a literal index applied to the values of a variable key (`Resources.%keys[n]`)',
+               props=['C01', 'C08'])
     return g
 
 
